@@ -525,6 +525,7 @@ func histMain(args mon.Args) {
 	})
 	peerClientPhase(run, snap)
 	concurrentLookups(run)
+	concurrentAnnouncers(run)
 	crossProcessHistories(run, snap, "hist:xproc", run.Pick(60, 1500))
 	// canary
 	{
@@ -548,7 +549,7 @@ func histMain(args mon.Args) {
 			run.HarnessError("canary: comparator accepted a corrupted expectation")
 		}
 	}
-	run.SetRule("seeded histories of 5-200 messages over 2-50 exporters (4-byte, IPv4-mapped, IPv6) and a pool of 2-5 template ids: announcements, re-announcements with a different definition, data, announce+data and data/redefinition/data inside one message; a reference map (address octets, id) → latest definition, updated in history order, gives the expected records and the expected 'unknown template' reports of every message; IPFIX peer lookups (IRPC.Get directly and through a real net/rpc server on loopback) must return exactly the reference entry or 'not available'; a peer-client phase runs the real ipfix.RPCServer (port 8085) and fetches hundreds of templates through ONE ipfix.RPCClient, keeping each answer as the RPC loop does: every kept answer must stay equal to its own key's entry. 60-1500 further histories are cut at 1-3 points and every part runs in a process of its own that loads the cache file its predecessor saved (real restarts: per-process state such as a random hash seed differs between the lives). A concurrent phase lets 16 goroutines look up 64 announced keys (8 in one shard) 40 000 times without any announcement: every lookup must see its own key's definition. Adversarial histories use key pairs with equal FNV-1-32 of address‖id (found by birthday search: same id on two exporters, different ids, IPv4/IPv6/mapped forms) and 20 structurally aliasing pairs (decimal concatenation without separator, addresses differing in one part only or with permuted octets, ids equal modulo 256 / xor 0x8000 / byte-swapped). distinct = (protocol, colliding, sizes, first datagram); non-trivial = at least one record expected")
+	run.SetRule("seeded histories of 5-200 messages over 2-50 exporters (4-byte, IPv4-mapped, IPv6) and a pool of 2-5 template ids: announcements, re-announcements with a different definition, data, announce+data and data/redefinition/data inside one message; a reference map (address octets, id) → latest definition, updated in history order, gives the expected records and the expected 'unknown template' reports of every message; IPFIX peer lookups (IRPC.Get directly and through a real net/rpc server on loopback) must return exactly the reference entry or 'not available'; a peer-client phase runs the real ipfix.RPCServer (port 8085) and fetches hundreds of templates through ONE ipfix.RPCClient, keeping each answer as the RPC loop does: every kept answer must stay equal to its own key's entry. 60-1500 further histories are cut at 1-3 points and every part runs in a process of its own that loads the cache file its predecessor saved (real restarts: per-process state such as a random hash seed differs between the lives). A concurrent phase lets 16 goroutines look up 64 announced keys (8 in one shard) 40 000 times without any announcement: every lookup must see its own key's definition; then 16 goroutines, each the only announcer of its own key, re-announce and decode 1500 times (read-your-own-announcement). Adversarial histories use key pairs with equal FNV-1-32 of address‖id (found by birthday search: same id on two exporters, different ids, IPv4/IPv6/mapped forms) and 20 structurally aliasing pairs (decimal concatenation without separator, addresses differing in one part only or with permuted octets, ids equal modulo 256 / xor 0x8000 / byte-swapped). distinct = (protocol, colliding, sizes, first datagram); non-trivial = at least one record expected")
 	run.Assume("the RPC() loop itself (multicast discovery) cannot run in this sandbox (no interface with flags == 19); IRPC.Get, RPCServer and RPCClient.Get are exercised")
 	run.Set("sub_claims_not_reached", []string{"peer-fetch client loop (ipfix.RPC): needs multicast discovery"})
 	run.Finish()
@@ -834,6 +835,58 @@ func concurrentLookups(run *mon.Run) {
 		if len(bad) > 0 {
 			run.Violation("hist:"+proto+":concurrent-lookup-wrong-template", fmt.Sprintf("16 goroutines looking up 64 announced keys (8 of them in one shard): %s (%d such observations shown of the first 10)", bad[0], len(bad)),
 				map[string]interface{}{"engine": "cachecheck/hist", "phase": "concurrent-lookups", "proto": proto, "observations": bad})
+		}
+	}
+}
+
+// concurrentAnnouncers: eight keys of one shard (and eight elsewhere), each owned by ONE goroutine that
+// re-announces its key with a new definition and then decodes data for it, 1500 times. Nobody else ever
+// announces that key, so the decode must use the definition just announced - whatever the other
+// goroutines are doing to their own keys in the same shard at that moment (an announcement of one
+// exporter must not undo another exporter's).
+func concurrentAnnouncers(run *mon.Run) {
+	for _, proto := range []string{"ipfix", "nf9"} {
+		api := newCacheAPI(proto, "")
+		var keys []concKey
+		for i := 0; len(keys) < 8 && i < 100000; i++ {
+			k := concKey{Addr: fullCap([]byte{10, 8, byte(i >> 8), byte(i)}), ID: uint16(256 + i%5)}
+			if fnvKey(k.Addr, k.ID)%32 == 11 {
+				keys = append(keys, k)
+			}
+		}
+		for i := 0; i < 8; i++ {
+			keys = append(keys, concKey{Addr: fullCap([]byte{172, 21, byte(i), byte(9 * i)}), ID: uint16(400 + i)})
+		}
+		var bad []string
+		var bmu sync.Mutex
+		var wg sync.WaitGroup
+		var ops int64
+		for gi := range keys {
+			wg.Add(1)
+			go func(gi int) {
+				defer wg.Done()
+				k := keys[gi]
+				for v := 1; v <= 1500; v++ {
+					api.write(k, v)
+					got, note := api.read(k)
+					atomic.AddInt64(&ops, 1)
+					if got != v {
+						bmu.Lock()
+						if len(bad) < 10 {
+							bad = append(bad, fmt.Sprintf("exporter (%x, %d) announced definition v%d and then sent data: decoded with v%d %s (nobody else announces this exporter's template)", k.Addr, k.ID, v, got, note))
+						}
+						bmu.Unlock()
+					}
+				}
+			}(gi)
+		}
+		wg.Wait()
+		run.Eval(1)
+		run.Distinct("concurrent-announcers|" + proto)
+		run.Add("concurrent_announce_then_decode_rounds", ops)
+		if len(bad) > 0 {
+			run.Violation("hist:"+proto+":concurrent-announcement-undone", fmt.Sprintf("16 goroutines, each the only announcer of its own key (8 keys in one shard): %s", bad[0]),
+				map[string]interface{}{"engine": "cachecheck/hist", "phase": "concurrent-announcers", "proto": proto, "observations": bad})
 		}
 	}
 }
